@@ -197,7 +197,8 @@ def checkServeSign (f : FuncFacts) : Bool :=
 
 /-- signCmd: the key named on the command line selects the token and is the name handed to Init;
     module, hash, cert and opts flow unchanged into mod.Sign; opts.Audit goes to PublishAudit;
-    the command itself writes no attribute -/
+    the only attribute the command itself writes is client.filename := argFile (the file that is
+    opened, probed, transformed and patched), unconditionally and before mod.Sign -/
 def checkSignCmd (f : FuncFacts) : Bool :=
   let initC := "signinit.Init(context.Background(), mod, token, argKeyName, hash, flags)"
   f.assignsTo "mod" == ["signers.ByFile(argFile, argSigType)#0"] &&
@@ -208,7 +209,7 @@ def checkSignCmd (f : FuncFacts) : Bool :=
   f.callsTo "mod.Sign" == [⟨"mod.Sign", ["stream", "cert", "*opts"], []⟩] &&
   f.argsOf "signinit.PublishAudit" == [["opts.Audit"]] &&
   f.never ["argKeyName", "argFile", "argSigType", "opts.Audit", "opts.Hash", "*opts", "cert.Leaf", "cert.PgpKey"] &&
-  f.attrs == [] && f.deletes == []
+  f.attrs == [⟨"opts.Audit.Attributes", "client.filename", "argFile", []⟩] && f.deletes == []
 
 /-! ### signer modules -/
 
